@@ -136,12 +136,12 @@ def _play(job):
     import signal
     item, script, backend, cfg = job
     signal.signal(signal.SIGALRM, _alarm)
-    signal.alarm(60)
+    signal.alarm(240)
     try:
         return _play1(job)
     except _Timeout:
         return [{"stop": "crashed", "pc": -1, "acchi": 0, "acclo": 0, "cnt": 0, "stack": [], "window": [], "hits": [], "fault": False, "below": "untouched",
-                 "below": "untouched", "crashed": "did not finish within 60 s"}]
+                 "below": "untouched", "crashed": "did not finish within 240 s"}]
     finally:
         signal.alarm(0)
 
@@ -175,7 +175,7 @@ def _worker(base, jobs, idxs, path):
 
 def play_all(ctx, jobs):
     """jobs: list of (item, script, backend, cfg) -> list of observation lists.  Workers are separate processes with one
-    TMPDIR each; a job that makes no progress for 45 s (a loop inside compiled code cannot be interrupted from Python) is
+    TMPDIR each; a job that makes no progress for 180 s (a loop inside compiled code cannot be interrupted from Python) is
     recorded as 'did not finish' and its worker is replaced."""
     import json
     import time
@@ -223,7 +223,7 @@ def play_all(ctx, jobs):
                     npr.start()
                     workers.append([npr, npath, rest, gen + 1])
                 continue
-            if time.time() - mtime > 45 and started is not None and started not in done:
+            if time.time() - mtime > 180 and started is not None and started not in done:
                 pr.kill()
                 pr.join()
                 results[started] = [dict(HANG)]
